@@ -10,10 +10,17 @@ use serde_json::json;
 
 use crate::common::*;
 use crate::rng::TestRng;
+use crate::c17::scenario_rerandomized_cheaters_and_threshold;
 use crate::{scn, Scenario};
 
 pub fn scenarios() -> Vec<Scenario> {
-    vec![scn!(scenario_cheaters_named, 4), scn!(scenario_cancelling_errors, 1)]
+    vec![
+        scn!(scenario_cheaters_named, 4),
+        scn!(scenario_cancelling_errors, 1),
+        crate::wrap::scn_sign_aggregate(1),
+        // the same statement for the re-randomized aggregation entry points (seeded2/C04_1 sits there)
+        scn!(scenario_rerandomized_cheaters_and_threshold, 1),
+    ]
 }
 
 const TAMPER_KINDS: [&str; 5] = ["add-random", "add-one", "zero-share", "other-signers-share", "random-share"];
